@@ -145,6 +145,9 @@ func init() {
 			{Scenario: "fullwindow/N=2", Budgets: bs(B(1, 1), B(0, 2)), Split: 1},
 			{Scenario: "fullwindow/N=3", Budgets: bs(B(1, 0), B(0, 1)), Split: 1},
 			{Scenario: "fullwindow/N=20", Budgets: bs(B(0, 0))},
+			// keepalive pings count against the window like any DATA packet
+			{Scenario: "pingwindow/N=2", Budgets: bs(B(1, 0)), Split: 1},
+			{Scenario: "pingwindow/N=3", Budgets: bs(B(0, 0))},
 		},
 		thorough: []Job{
 			{Scenario: "fullwindow/N=1", Budgets: bs(B(2, 1), B(1, 2), B(0, 3)), Split: 2},
@@ -152,6 +155,9 @@ func init() {
 			{Scenario: "fullwindow/N=3", Budgets: bs(B(1, 1), B(0, 2)), Split: 2},
 			{Scenario: "fullwindow/N=20", Budgets: bs(B(0, 1)), Split: 1},
 			{Scenario: "fullwindow/N=254/extra=1", Budgets: bs(B(0, 0))},
+			{Scenario: "pingwindow/N=2", Budgets: bs(B(2, 0)), Split: 2},
+			{Scenario: "pingwindow/N=1", Budgets: bs(B(1, 0)), Split: 1},
+			{Scenario: "pingwindow/N=20", Budgets: bs(B(0, 0))},
 		},
 		quickS: 240, thoroughS: 1200,
 	}
@@ -257,6 +263,10 @@ func init() {
 			{Scenario: "kadead/N=2/ka=1s,3s/kaside=c/k=4", Budgets: bs(B(0, 1)), Split: 1},
 			{Scenario: "kadead/N=1/ka=1s,8s/kaside=s/k=1", Budgets: bs(B(0, 1)), Split: 1},
 			{Scenario: "kadead/N=1/ka=2s,1s/k=2/until=5s", Budgets: bs(B(1, 1)), Filter: "tickeronly", Split: 1},
+			// a large window and an application that keeps sending at a
+			// pace below the ping interval: the window fills only slowly
+			// once the peer is gone
+			{Scenario: "kadead/N=20/ka=2s,1s/k=25/pace=1500ms/kaside=c", Budgets: bs(B(0, 1)), Split: 1},
 		},
 		thorough: []Job{
 			{Scenario: "kadead/N=1/ka=2s,1s/k=2", Budgets: bs(B(1, 1)), Filter: "keepalive", Split: 2},
@@ -266,6 +276,8 @@ func init() {
 			{Scenario: "kalive/ka=5s,3s/lat=1499ms/idle=100s/H=4s/R=4s", Budgets: bs(B(1, 0)), Split: 1},
 			{Scenario: "kadead/N=2", Budgets: bs(B(1, 1)), Split: 2},
 			{Scenario: "kadead/N=2/ka=7s,3s", Budgets: bs(B(0, 1)), Split: 1},
+			{Scenario: "kadead/N=20/ka=2s,1s/k=25/pace=1500ms/kaside=c", Budgets: bs(B(1, 1)), Filter: "tickeronly", Split: 1},
+			{Scenario: "kadead/N=20/ka=2s,1s/k=25/pace=700ms", Budgets: bs(B(0, 1)), Split: 1},
 			{Scenario: "kadead/N=2/kaside=c/k=1", Budgets: bs(B(1, 1)), Split: 2},
 			{Scenario: "kadead/N=2/kaside=s/k=1", Budgets: bs(B(1, 1)), Split: 2},
 			{Scenario: "kadead/N=1/ka=2s,1s", Budgets: bs(B(1, 1)), Split: 2},
@@ -277,6 +289,7 @@ func init() {
 		quick: []Job{
 			{Scenario: "ticker2", Budgets: bs(B(2, 0)), Split: 1},
 			{Scenario: "tm3", Budgets: bs(B(2, 0)), Split: 1},
+			{Scenario: "queue3", Budgets: bs(B(2, 0)), Split: 1},
 			{Scenario: "coincide/N=2", Budgets: bs(B(1, 0)), Split: 1},
 			{Scenario: "coincide/N=2/at=1999ms", Budgets: bs(B(1, 0)), Split: 1},
 			{Scenario: "coincide/N=2/at=2001ms", Budgets: bs(B(1, 0)), Split: 1},
@@ -285,6 +298,7 @@ func init() {
 			{Scenario: "ticker2", Budgets: bs(B(3, 0)), Split: 2},
 			{Scenario: "ticker2/rounds=3", Budgets: bs(B(2, 0)), Split: 2},
 			{Scenario: "tm3", Budgets: bs(B(3, 0)), Split: 2},
+			{Scenario: "queue3", Budgets: bs(B(4, 0)), Split: 2},
 			{Scenario: "coincide/N=2", Budgets: bs(B(2, 0)), Filter: "tickeronly", Split: 2},
 			{Scenario: "coincide/N=2/at=1999ms", Budgets: bs(B(1, 0)), Split: 1},
 			{Scenario: "coincide/N=2/at=2001ms", Budgets: bs(B(1, 0)), Split: 1},
